@@ -139,5 +139,7 @@ func isIPv6(addr string) bool {
 	if ip == nil {
 		return false
 	}
-	return ip.To4() == nil
+	// An IPv4-mapped IPv6 address like "::ffff:1.2.3.4" is written with colons,
+	// it needs the same decoration as any other IPv6 address.
+	return ip.To4() == nil || strings.Contains(host, ":")
 }
